@@ -28,6 +28,9 @@ pub enum Op {
     /// Like Reparse, but the text travels through a SummaryStream (the second
     /// public parsing route) in the given chunks.
     ReparseViaStream { seed: u64, chunks: Vec<usize> },
+    /// Print, then `count` value-changing calls on the same object (a counter of
+    /// calls may be narrow), then print again: 255, 256, 65535, 65536, 65537 ...
+    Burst { count: u32 },
 }
 
 #[derive(Clone, Debug, Serialize, Deserialize)]
@@ -61,6 +64,9 @@ fn gen_free_history(rng: &mut Rng) -> Hist {
             });
         } else if r < push_rate + meta_rate {
             ops.push(match rng.below(5) {
+                0 if rng.chance(1, 12) => Op::Burst {
+                    count: *rng.pick(&[255u32, 256, 257, 65_535, 65_536, 65_537, 131_072]),
+                },
                 0 => Op::Clone { seed: rng.next_u64() },
                 1 => Op::Print,
                 2 => Op::Reparse { seed: rng.next_u64() },
@@ -273,6 +279,38 @@ fn run_history(h: &Hist, hi: usize, ctx: &mut Ctx) -> Result<Final, Violation> {
                 }
                 // carry on with the untouched original
                 sum = orig;
+            }
+            Op::Burst { count } => {
+                ctx.step("burst", *count as u64, 0);
+                ctx.probe("burst-of-calls-between-prints");
+                let before = sum.to_string();
+                ensure!(
+                    before == print_entry(&model),
+                    "print-mismatch",
+                    "history {} op {}: printed {:?} before a burst of calls",
+                    hi,
+                    oi,
+                    before
+                );
+                // COMMENT (variable 2) alternates between two texts, count times
+                for k in 0..*count {
+                    sum.set_comment(if k % 2 == 0 { "burst-a" } else { "burst-b" });
+                }
+                if *count > 0 {
+                    model.insert(2, Val::S(if (*count - 1) % 2 == 0 { "burst-a".into() } else { "burst-b".into() }));
+                }
+                let got = sum.to_string();
+                let want = print_entry(&model);
+                ensure!(
+                    got == want,
+                    "print-mismatch",
+                    "history {} op {}: after {} set_comment calls on the same object it printed {:?}, canonical print of the current values is {:?}",
+                    hi,
+                    oi,
+                    count,
+                    got,
+                    want
+                );
             }
             Op::Print => {
                 ctx.step("print", 0, 0);
@@ -642,7 +680,7 @@ impl Property for C07 {
     }
 
     fn work_factor(&self) -> Option<u64> {
-        Some(128)
+        Some(512)
     }
     fn rule(&self) -> String {
         "One third of the runs execute a free-form history of 1..60 set/push/clone/print/reparse calls over all 23 \
